@@ -55,6 +55,9 @@ def _one(args):
                 else:
                     X = pd.DataFrame(np.array(Xint, dtype=dt), columns=[f"c{p}" for p in range(K + M)])
                     cr = CorrelationRemover(sensitive_feature_ids=[f"c{p}" for p in sens_ids], alpha=alpha)
+                if container == "frame" and alpha == 1.0:
+                    # the same estimator object was fitted before on a frame with the columns in another order
+                    cr.fit(X[list(X.columns[::-1])] + 1.0)
                 o1 = np.asarray(cr.fit_transform(X))
                 o2 = np.asarray(CorrelationRemover(**cr.get_params()).fit(X).transform(X))
             except Exception as e:
@@ -133,8 +136,13 @@ def _real(seed):
             Sx = Xfull[:, sens]
             scale = max(1.0, np.abs(Xfull).max()) ** 2 * n
             cov = (o1 - o1.mean(axis=0)).T @ (Sx - Sx.mean(axis=0))
+            sv = np.linalg.svd(Sx - Sx.mean(axis=0), compute_uv=False)
+            # centred sensitive columns that are rank deficient up to rounding noise (always when k >= n; collinear columns otherwise)
+            noisy_rank_deficient = bool(len(sv) and sv[0] > 0 and 0 < sv[-1] / sv[0] < 1e-12) or bool(k >= n)
             if np.abs(cov).max() > 1e-8 * scale:
-                out.append(({"api": "fit_transform", "kind": "covariance", "real": True, "k": int(k)}, f"covariance {np.abs(cov).max()} (n={n}, k={k}, mode={mode})", detail))
+                out.append(({"api": "fit_transform", "kind": "covariance", "real": True, "noisy_rank_deficient": noisy_rank_deficient},
+                            f"covariance {np.abs(cov).max()} (n={n}, k={k}, mode={mode}; singular values of the centred sensitive columns {sv.tolist()})", detail))
+                continue
             al = float(rs.uniform(0, 1))
             oa = np.asarray(CorrelationRemover(sensitive_feature_ids=ids, alpha=al).fit_transform(X))
             if not np.allclose(oa, al * o1 + (1 - al) * Xfull[:, other], atol=1e-9 * max(1.0, np.abs(Xfull).max())):
@@ -155,7 +163,7 @@ def _real(seed):
 def run(ck):
     ck.rule = ("CorrRem.tla: every multiset of rows (K sensitive + M other integer columns, entries 0..V-1) with >= 2 rows is one TLC state, replayed with shuffled rows, a seeded column "
                "layout, ndarray/DataFrame, alpha in {0, 1/2, 1}, new-row transform; plus seeded real-valued matrices (n<=40, 1..4 sensitive columns, constant / collinear cases)")
-    confs = [(3, 1, 1, 3), (3, 2, 1, 3), (4, 2, 1, 2), (3, 2, 2, 2)] if ck.quick else [(4, 1, 1, 3), (4, 2, 1, 3), (3, 2, 2, 3), (5, 2, 1, 2), (4, 1, 2, 3)]
+    confs = [(3, 1, 1, 3), (3, 2, 1, 3), (4, 2, 1, 2), (3, 2, 2, 2)] if ck.quick else [(4, 1, 1, 3), (4, 2, 1, 2), (3, 2, 2, 2), (3, 2, 1, 3), (5, 1, 1, 2), (4, 2, 2, 2)]
     cases = []
     for (N, K, M, V) in confs:
         ck.tlc("CorrRem", cfg(N, K, M, V, False), f"laws N<={N} K={K} M={M} V={V}", timeout=3000)
@@ -168,9 +176,9 @@ def run(ck):
         ranks[(c["K"], rank)] = ranks.get((c["K"], rank), 0) + 1
         for sig, text, detail in viol:
             ck.violation(sig, text, {"rows": c["rows"], **detail})
-    nreal = 300 if ck.quick else 4000
+    nreal = 300 if ck.quick else 2500
     modes = {}
-    for viol, mode in pmap(_real, [ck.seed * 100003 + i for i in range(nreal)]):
+    for viol, mode in pmap(_real, [656, 2191] + [ck.seed * 100003 + i for i in range(nreal)]):      # 656 / 2191: the recorded D15 inputs
         ck.impl += 1
         modes[mode] = modes.get(mode, 0) + 1
         for sig, text, detail in viol:
